@@ -1,5 +1,6 @@
 import Robust.Irc.Dump
 import Robust.Irc.Inv
+import Robust.Irc.Snapshot
 import Robust.Api.Model
 import Driver.Util
 /-! driver component `irc`: `R` reset, `E …` entry, `D` dump, `W` walk -/
@@ -19,10 +20,10 @@ def parsePairs (s : String) : Option (List (String × String)) :=
 def parseList (s : String) : Option (List String) :=
   if s == "" then some [] else (s.splitOn ",").mapM unhexStr
 
-/-- `cfg=<valid>;<ops>;<svc>;<se>;<pc>;<tb>;<cu>;<cs>;<cl>;<ms>;<mc>;<bn>` -/
+/-- `cfg=<valid>;<ops>;<svc>;<se>;<pc>;<tb>;<cu>;<cs>;<cl>;<ms>;<mc>;<bn>;<wo>` -/
 def parseCfg (s : String) : Option (Option Config) :=
   match (s.drop 4).toString.splitOn ";" with
-  | [valid, ops, svc, se, pc, tb, cu, cs, cl, ms, mc, bn] =>
+  | [valid, ops, svc, se, pc, tb, cu, cs, cl, ms, mc, bn, wo] =>
     if valid == "0" then some none else do
     let ops ← parsePairs ops
     let svc ← parseList svc
@@ -34,8 +35,11 @@ def parseCfg (s : String) : Option (Option Config) :=
     let ms ← ms.toNat?
     let mc ← mc.toNat?
     let bn ← parsePairs bn
+    let wo ← (if wo == "" then some [] else (wo.splitOn ",").mapM fun p => match p.splitOn ":" with
+      | [k, v] => do let k ← unhexStr k; pure (k, v == "1")
+      | _ => none)
     pure (some { operators := ops, services := svc, sessionExpiration := se, postMessageCooloff := pc, trustedBridges := tb,
-                 captchaURL := cu, captchaSecret := cs, captchaRequiredForLogin := cl == "1", maxSessions := ms, maxChannels := mc, banned := bn })
+                 captchaURL := cu, captchaSecret := cs, captchaRequiredForLogin := cl == "1", maxSessions := ms, maxChannels := mc, banned := bn, whitelistedOrigins := wo })
   | _ => none
 
 def parseEntry : List String → Option Entry
@@ -95,6 +99,17 @@ def invWhy (st : St) : String :=
     (st.nicks.filterMap fun e => if nickIndexOk st e.1 e.2 then none else some s!"nick {e.1}") ++
     (st.channels.filterMap fun e => if channelOk st e.1 e.2 then none else some s!"chan {e.1}"))
 
+/-- reorder every Go map of the state (association lists, member lists, channel sets): the
+list order stands for Go's unspecified map iteration order, so a model that is insensitive to
+it must produce the same canonical output after any such reordering -/
+def permuteState (st : St) : St :=
+  { st with
+    sessions := (st.sessions.map fun e => (e.1, { e.2 with channels := e.2.channels.reverse, invitedTo := e.2.invitedTo.reverse })).reverse,
+    nicks := st.nicks.reverse,
+    channels := (st.channels.map fun e => (e.1, { e.2 with nicks := e.2.nicks.reverse })).reverse,
+    svsholds := st.svsholds.reverse,
+    config := { st.config with banned := st.config.banned.reverse, trustedBridges := st.config.trustedBridges.reverse } }
+
 def step (d : DState) (line : String) : DState × String :=
   match Driver.words line with
   | ["R"] => (init, "ok")
@@ -115,8 +130,16 @@ def step (d : DState) (line : String) : DState × String :=
     | some id, some reply => (d, match Robust.Api.getSession d.st ⟨id, reply⟩ with
       | .ok _ => "found" | .error .noSuchSession => "nosuch" | .error .notYetSeen => "notyet" | .error _ => "error")
     | _, _ => (d, "bad-op")
+  | ["M"] => if d.broken then (d, "skipped") else ({ d with st := saveLoad d.st }, "ok")
   | ["D"] => if d.broken then (d, "skipped") else (d, dumpState d.st)
   | ["W"] => if d.broken then (d, "skipped") else (d, (if invB d.st then "walk ok" else "walk bad " ++ invWhy d.st) ++ (if d.tainted then " tainted" else ""))
   | _ => (d, "bad-op")
 
+end Driver.IrcDrv
+
+namespace Driver.IrcDrv
+/-- `ircperm`: like `irc`, but the state's maps are reordered after every entry -/
+def stepPerm (d : DState) (line : String) : DState × String :=
+  let (d', out) := step d line
+  ({ d' with st := permuteState d'.st }, out)
 end Driver.IrcDrv
